@@ -98,21 +98,29 @@ def frame_parts_contract():
 
 # ---------------------------------------------------------------- _marshal and friends
 def marshal_low_contract():
+    def octets(c):
+        return sym.is_byteslike(c.payload)
+
     def ok(c):
-        if not (is_int(c.frame_type) and is_int(c.channel_id)):
+        if not (octets(c) and is_int(c.frame_type) and is_int(c.channel_id)):
             return False
         return conj(in_range(c.frame_type, 0, 255), in_range(c.channel_id, 0, 65535),
                     lt(wire.blen(c.st, c.payload), 2 ** 32))
 
     def bad(c):
+        if not octets(c):
+            return False
         if not (is_int(c.frame_type) and is_int(c.channel_id)):
             return True
         return neg(ok(c))
 
-    return Contract(FRM + '_marshal', [('frame_type', T.int), ('channel_id', T.int | T.bool | T.none | T.str), ('payload', T.bytes | T.bytearray)], cases=[
+    return Contract(FRM + '_marshal', [('frame_type', T.int), ('channel_id', T.int | T.bool | T.none | T.str),
+                                       ('payload', T.bytes | T.bytearray | T.str | T.none | T.int)], cases=[
         Case('frame', when=ok, returns=lambda c: wire.frame(c.st, c.frame_type, c.channel_id, c.payload)),
         Case('refused', when=bad, raises=struct.error),
-    ], doc='C04: general frame format; out-of-range type/channel/size refused with struct.error')
+        Case('payload-is-not-octets', when=lambda c: not octets(c), raises=(TypeError, struct.error)),
+    ], doc='C04/C20: general frame format; out-of-range type/channel/size refused with struct.error; a payload that is not '
+           'a byte string (text, None, a number) is never framed')
 
 
 def body_self(value_spec=T.bytes):
@@ -163,10 +171,14 @@ def content_body_contracts():
             return False
         return conj(in_range(c.channel_id, 0, 65535), lt(wire.blen(c.st, v), 2 ** 32))
 
+    def is_octets(c):
+        return sym.is_byteslike(c.value.attrs['value'])
+
     out.append(Contract(FRM + '_marshal_content_body_frame',
-                        [('value', body_self(T.bytes | T.bytearray)), ('channel_id', T.int)],
+                        [('value', body_self(T.bytes | T.bytearray | T.str | T.none)), ('channel_id', T.int)],
                         cases=[Case('frame', when=okb, returns=lambda c: wire.frame(c.st, 3, c.channel_id, c.value.attrs['value'])),
-                               Case('refused', when=lambda c: neg(okb(c)), raises=struct.error)]))
+                               Case('refused', when=lambda c: is_octets(c) and neg(okb(c)), raises=struct.error),
+                               Case('body-is-not-octets', when=lambda c: not is_octets(c), raises=(TypeError, struct.error))]))
 
     # _unmarshal_body_frame(frame_data)
     out.append(Contract(FRM + '_unmarshal_body_frame', [('frame_data', T.bytes)],
